@@ -8,5 +8,6 @@ ASSUME PrintT(<<"STATS", ToJson([ncases |-> NCases, applicable |-> Cardinality(A
                                  samples |-> Cardinality(SampleTexts), kinds |-> NK, files |-> NF,
                                  positions |-> NP, shapes |-> NS, rels |-> NR, shape_names |-> Shapes,
                                  ends_nl_shapes |-> EndsNLShapes, ml_string_shapes |-> MultiLineStringShapes,
-                                 from_kinds |-> FromKinds, dup_kinds |-> DupKinds])>>)
+                                 from_kinds |-> FromKinds, dup_kinds |-> DupKinds,
+                                 ml_kinds |-> MLKinds])>>)
 =============================================================================
